@@ -1011,6 +1011,7 @@ impl<'a> Interp<'a> {
                 v => panic!("interp: exit {v:?}"),
             },
             Stmt::Fatal(m) => return Err(Stop::Fatal(m.clone())),
+            Stmt::Raw(_) => panic!("interp: raw statement"),
         }
         Ok(())
     }
